@@ -38,6 +38,15 @@ def _ref_varint(x: int) -> bytes:
     return encoder._VarintBytes(x & MASK64)
 
 
+class _KeepingSink:
+    def __init__(self):
+        self.chunks = []
+
+    def write(self, b):
+        self.chunks.append(b)
+        return len(b)
+
+
 def check_int(bp, x: int):
     """Failures for one integer in [-2**63, 2**64). Returns list[(clause, detail)]."""
     out = []
@@ -64,6 +73,15 @@ def check_int(bp, x: int):
         bp.dump_varint(x, s)
         if s.getvalue() != spec:
             out.append(("dump_varint", f"x={x} got={s.getvalue().hex()} want={spec.hex()}"))
+        # a sink that KEEPS what it is handed (a list of chunks, a transport's write queue) instead of copying it:
+        # what was written for one value must not change when the next value is written
+        keep = _KeepingSink()
+        bp.dump_varint(x, keep)
+        bp.dump_varint(300, keep)
+        bp.dump_varint(x, keep)
+        got = b"".join(bytes(ch) for ch in keep.chunks)
+        if got != spec + b"\xac\x02" + spec:
+            out.append(("dump_varint_chunks_change_later", f"x={x} got={got.hex()} want={(spec + bytes([0xac, 2]) + spec).hex()}"))
     except Exception as e:  # noqa: BLE001
         out.append((f"raises_{type(e).__name__}", f"x={x}: {e}"))
     return out
